@@ -14,19 +14,39 @@ import (
 	"testing"
 	"time"
 
+	"go.opentelemetry.io/otel"
 	"go.opentelemetry.io/otel/attribute"
 	"go.opentelemetry.io/otel/metric"
+	"go.opentelemetry.io/otel/sdk/metric/exemplar"
 	"go.opentelemetry.io/otel/sdk/metric/metricdata"
 )
 
 type c02ReaderCfg struct {
 	periodic bool
 	tc, tu   metricdata.Temporality // temporality for counters / up-down counters
+	// what the reader's AggregationSelector answers for the sum kinds: '-' default, 'u'/'c'/'b' = LastValue (rejected
+	// with an error at instrument creation) for up-down counters / counters / both, 'D' = Drop for up-down counters
+	rej byte
 }
 type c02InstCfg struct{ float, updown bool }
 type c02Cfg struct {
 	readers []c02ReaderCfg
 	insts   []c02InstCfg
+	cb      bool // an observable gauge with a callback is registered (it never observes anything)
+	to      bool // the periodic readers get a short timeout (tickx / flushx)
+	hooks   bool // every instrument gets a view installing a hook exemplar reservoir (collectx / tickx / flushx)
+}
+
+// aggregation answers the reader's AggregationSelector.
+func (r c02ReaderCfg) aggregation(k InstrumentKind) Aggregation {
+	ud, ct := k == InstrumentKindUpDownCounter, k == InstrumentKindCounter
+	switch {
+	case r.rej == 'u' && ud, r.rej == 'c' && ct, r.rej == 'b' && (ud || ct):
+		return AggregationLastValue{}
+	case r.rej == 'D' && ud:
+		return AggregationDrop{}
+	}
+	return DefaultAggregationSelector(k)
 }
 
 func c02T(t metricdata.Temporality) string {
@@ -50,7 +70,11 @@ func (c c02Cfg) String() string {
 		if r.periodic {
 			k = "p"
 		}
-		rs = append(rs, k+c02T(r.tc)+c02T(r.tu))
+		x := k + c02T(r.tc) + c02T(r.tu)
+		if r.rej != 0 && r.rej != '-' {
+			x += string(r.rej)
+		}
+		rs = append(rs, x)
 	}
 	for _, i := range c.insts {
 		n, k := "i", "c"
@@ -62,13 +86,30 @@ func (c c02Cfg) String() string {
 		}
 		is = append(is, n+k)
 	}
-	return strings.Join(rs, ",") + " " + strings.Join(is, ",")
+	fl := ""
+	if c.cb {
+		fl += "+cb"
+	}
+	if c.to {
+		fl += "+to"
+	}
+	return strings.Join(rs, ",") + " " + strings.Join(is, ",") + fl
 }
 
 func c02ParseCfg(rs, is string) c02Cfg {
 	var c c02Cfg
 	for _, r := range strings.Split(rs, ",") {
-		c.readers = append(c.readers, c02ReaderCfg{periodic: r[0] == 'p', tc: c02PT(r[1]), tu: c02PT(r[2])})
+		rc := c02ReaderCfg{periodic: r[0] == 'p', tc: c02PT(r[1]), tu: c02PT(r[2]), rej: '-'}
+		if len(r) > 3 {
+			rc.rej = r[3]
+		}
+		c.readers = append(c.readers, rc)
+	}
+	parts := strings.Split(is, "+")
+	is = parts[0]
+	for _, f := range parts[1:] {
+		c.cb = c.cb || f == "cb"
+		c.to = c.to || f == "to"
 	}
 	for _, i := range strings.Split(is, ",") {
 		c.insts = append(c.insts, c02InstCfg{float: i[0] == 'f', updown: i[1] == 'u'})
@@ -168,7 +209,7 @@ func (e *c02Exporter) Temporality(k InstrumentKind) metricdata.Temporality {
 	}
 	return e.cfg.tc
 }
-func (e *c02Exporter) Aggregation(k InstrumentKind) Aggregation { return DefaultAggregationSelector(k) }
+func (e *c02Exporter) Aggregation(k InstrumentKind) Aggregation { return e.cfg.aggregation(k) }
 func (e *c02Exporter) Export(_ context.Context, rm *metricdata.ResourceMetrics) error {
 	// rm is pooled by the reader: everything is extracted before returning
 	e.sys.mu.Lock()
@@ -185,7 +226,47 @@ func (e *c02Exporter) Export(_ context.Context, rm *metricdata.ResourceMetrics) 
 func (e *c02Exporter) ForceFlush(context.Context) error { return nil }
 func (e *c02Exporter) Shutdown(context.Context) error   { return nil }
 
+// c02Hook is an exemplar reservoir whose Collect runs a one-shot hook: the SDK calls it while it computes the
+// aggregation of the stream, i.e. in the middle of pipeline.produce (public API: Stream.ExemplarReservoirProviderSelector).
+type c02Hook struct {
+	mu   sync.Mutex
+	hook func()
+}
+
+func (h *c02Hook) set(f func()) {
+	h.mu.Lock()
+	h.hook = f
+	h.mu.Unlock()
+}
+func (h *c02Hook) Offer(context.Context, time.Time, exemplar.Value, []attribute.KeyValue) {}
+func (h *c02Hook) Collect(dest *[]exemplar.Exemplar) {
+	*dest = (*dest)[:0]
+	h.mu.Lock()
+	f := h.hook
+	h.hook = nil
+	h.mu.Unlock()
+	if f != nil {
+		f()
+	}
+}
+
+// c02ErrSig receives every error given to otel.Handle (the periodic run loop reports failed interval exports there).
+var c02ErrSig = make(chan struct{}, 1024)
+
+func c02InstallErrHandler(t *testing.T) {
+	otel.SetErrorHandler(otel.ErrorHandlerFunc(func(error) {
+		select {
+		case c02ErrSig <- struct{}{}:
+		default:
+		}
+	}))
+}
+
+const c02ShortTimeout = 40 * time.Millisecond
+
 type c02Sys struct {
+	hooks   []*c02Hook
+	cbHook  c02Hook
 	cfg     c02Cfg
 	mp      *MeterProvider
 	readers []Reader
@@ -227,7 +308,11 @@ func c02New(cfg c02Cfg) *c02Sys {
 		rc := rc
 		if rc.periodic {
 			e := &c02Exporter{sys: s, ridx: i, cfg: rc, sig: make(chan struct{}, 1024)}
-			r := NewPeriodicReader(e, WithInterval(time.Hour), WithTimeout(30*time.Second))
+			to := 30 * time.Second
+			if cfg.to {
+				to = c02ShortTimeout
+			}
+			r := NewPeriodicReader(e, WithInterval(time.Hour), WithTimeout(to))
 			s.ticks = append(s.ticks, <-c02TickCh)
 			s.exps = append(s.exps, e)
 			s.readers = append(s.readers, r)
@@ -238,7 +323,7 @@ func c02New(cfg c02Cfg) *c02Sys {
 					return rc.tu
 				}
 				return rc.tc
-			}))
+			}), WithAggregationSelector(rc.aggregation))
 			s.ticks = append(s.ticks, nil)
 			s.exps = append(s.exps, nil)
 			s.readers = append(s.readers, r)
@@ -246,9 +331,29 @@ func c02New(cfg c02Cfg) *c02Sys {
 		}
 		s.down = append(s.down, false)
 	}
+	if cfg.hooks {
+		for j := range cfg.insts {
+			h := &c02Hook{}
+			s.hooks = append(s.hooks, h)
+			opts = append(opts, WithView(NewView(Instrument{Name: fmt.Sprintf("i%d", j)}, Stream{
+				ExemplarReservoirProviderSelector: func(Aggregation) exemplar.ReservoirProvider {
+					return func(attribute.Set) exemplar.Reservoir { return h }
+				},
+			})))
+		}
+	}
 	s.mp = NewMeterProvider(opts...)
 	m := s.mp.Meter("c02")
 	ctx := context.Background()
+	defer func() {
+		if cfg.cb {
+			// created last: the indexes of the sum instruments in the pipelines do not change
+			_, _ = m.Int64ObservableGauge("zcb", metric.WithInt64Callback(func(context.Context, metric.Int64Observer) error {
+				s.cbHook.Collect(new([]exemplar.Exemplar))
+				return nil
+			}))
+		}
+	}()
 	for j, ic := range cfg.insts {
 		name := fmt.Sprintf("i%d", j)
 		switch {
@@ -270,9 +375,11 @@ func c02New(cfg c02Cfg) *c02Sys {
 }
 
 // collect calls Reader.Collect and records the result under the given stamp.
-func (s *c02Sys) collect(stamp, r int) {
+func (s *c02Sys) collect(stamp, r int) { s.collectCtx(context.Background(), stamp, r) }
+
+func (s *c02Sys) collectCtx(ctx context.Context, stamp, r int) {
 	var rm metricdata.ResourceMetrics
-	err := s.readers[r].Collect(context.Background(), &rm)
+	err := s.readers[r].Collect(ctx, &rm)
 	rec := c02Format(stamp, r, err, &rm)
 	s.mu.Lock()
 	s.recs = append(s.recs, rec)
@@ -280,18 +387,32 @@ func (s *c02Sys) collect(stamp, r int) {
 }
 
 // tick makes the run loop of periodic reader r perform one interval export; false = the loop did not react.
-func (s *c02Sys) tick(r int) bool {
+func (s *c02Sys) tick(r int) bool { return s.tickStatus(r) == "ok" }
+
+// tickStatus: "ok" = a payload reached the exporter, "err" = the loop reported an error instead (otel.Handle),
+// "hang" = neither within 20 s.
+func (s *c02Sys) tickStatus(r int) string {
+	for {
+		select {
+		case <-c02ErrSig:
+			continue
+		default:
+		}
+		break
+	}
 	select {
 	case s.ticks[r] <- time.Now():
 	case <-time.After(20 * time.Second):
-		return false
+		return "hang"
 	}
 	select {
 	case <-s.exps[r].sig:
+		return "ok"
+	case <-c02ErrSig:
+		return "err"
 	case <-time.After(20 * time.Second):
-		return false
+		return "hang"
 	}
-	return true
 }
 
 func (s *c02Sys) drainSignals() {
